@@ -267,6 +267,32 @@ def while_index(step: str) -> list:
     return [(S, "    for ck, cv in _cookie_re.findall(cookie):\n", f"    found = _cookie_re.findall(cookie)\n    i = 0\n\n    while i < len(found):\n        ck, cv = found[i]\n        i += {step}\n")]
 
 
+NQ_DEF = r"""_cookie_no_quote_re = re.compile(r"[\w!#$%&'()*+\-./:<=>?@\[\]^`{|}~]*", re.A)"""
+NQ_TEST = "    if not _cookie_no_quote_re.fullmatch(value):\n"
+SAFE = r"""\w!#$%&'()*+\-./:<=>?@\[\]^`{|}~"""
+
+
+def fast_path(pattern: str, method: str, flags: str = ", re.A") -> list:
+    """the fast-path test spelled with another method / other anchors / other flags (``{C}`` = the safe class)"""
+    return [
+        (H, NQ_DEF, '_cookie_no_quote_re = re.compile(r"' + pattern.replace("{C}", "[" + SAFE + "]") + '"' + flags + ")"),
+        (H, NQ_TEST, f"    if not _cookie_no_quote_re.{method}(value):\n"),
+    ]
+
+
+def unsafe_search(cls: str, method: str = "search", subject: str = "value", prefix: str = "r") -> list:
+    """quote when an unsafe character is found (instead of: unless the whole value is safe)"""
+    return [
+        (H, NQ_DEF, f'_cookie_quote_needed_re = re.compile({prefix}"{cls}", re.A)'),
+        (H, NQ_TEST, f"    if _cookie_quote_needed_re.{method}({subject}):\n"),
+    ]
+
+
+def inline_pattern(call: str) -> list:
+    """module-level re function with the pattern text and the flags at the call"""
+    return [(H, NQ_TEST, f"    if {call} is None:\n")]
+
+
 MUTANTS = [
     {"name": "range-typo-x1e", "expect": "R13.1", "edits": [(H, r'rb"[\x00-\x1f\",;\\\x7f-\xff]"', r'rb"[\x00-\x1e\",;\\\x7f-\xff]"')]},
     {"name": "semicolon-dropped", "expect": "R13.1", "edits": [(H, r'rb"[\x00-\x1f\",;\\\x7f-\xff]"', r'rb"[\x00-\x1f\",\\\x7f-\xff]"')]},
@@ -320,6 +346,20 @@ MUTANTS = [
     {"name": "named-groups-absent-value-crashes", "expect": "R13.2", "edits": named_groups("m['val']")},
     {"name": "join-star-pair-last", "expect": "R13.5", "edits": join_star("*buf, pair")},
     {"name": "while-index-skips-every-second-pair", "expect": "R13.2", "edits": while_index("2")},
+    # ---- the set of values that take the fast path (language of the test actually used) ----
+    {"name": "fast-path-match-dollar", "expect": "R13.3", "edits": fast_path("{C}*$", "match")},
+    {"name": "fast-path-search-caret-dollar", "expect": "R13.3", "edits": fast_path("^{C}*$", "search")},
+    {"name": "fast-path-search-multiline", "expect": "R13.3", "edits": fast_path(r"\A{C}*$", "search", ", re.A | re.M")},
+    {"name": "fast-path-match-scoped-multiline-dollar", "expect": "R13.3", "edits": fast_path("{C}*(?m:$)", "match")},
+    {"name": "fast-path-search-unanchored-start", "expect": "R13.3", "edits": fast_path(r"{C}*\Z", "search")},
+    {"name": "fast-path-optional-newline", "expect": "R13.3", "edits": fast_path(r"{C}*\n?", "fullmatch")},
+    {"name": "fast-path-ignorecase-for-ascii", "expect": "R13.3", "edits": fast_path("{C}*", "fullmatch", ", re.I")},
+    {"name": "fast-path-dot-tail", "expect": "R13.3", "edits": fast_path(r"{C}*.?\Z", "match")},
+    {"name": "unsafe-search-forgets-comma", "expect": "R13.3", "edits": unsafe_search("[^" + SAFE + ",]")},
+    {"name": "unsafe-match-first-character-only", "expect": "R13.3", "edits": unsafe_search("[^" + SAFE + "]", "match")},
+    {"name": "unsafe-search-escape-class-leaves-space-raw", "expect": "R13.3", "edits": [(H, NQ_TEST, "    if _cookie_slash_re.search(value.encode()):\n")]},
+    {"name": "unsafe-search-bytes-lead-bytes-only", "expect": "R13.3", "edits": unsafe_search(r"[\x00-\x20\",;\\\x7f\xc2-\xdf]", "search", "value.encode()", "rb")},
+    {"name": "inline-pattern-no-flags", "expect": "R13.3", "edits": inline_pattern('re.fullmatch(r"[' + SAFE + ']*", value)')},
 ]
 TWINS = [
     {"name": "escape-more", "edits": [(H, r'rb"[\x00-\x1f\",;\\\x7f-\xff]"', r'rb"[\x00-\x1f\",;\\\x7f-\xff ]"'), (H, '*b",;", *range(0x7F, 256)', '*b",; ", *range(0x7F, 256)')]},
@@ -347,4 +387,15 @@ TWINS = [
     {"name": "join-star", "edits": join_star("pair, *buf")},
     {"name": "while-index", "edits": while_index("1")},
     {"name": "environ-parser-conditional-expression", "edits": [(H, ENVIRON, '    cookie = header.get("HTTP_COOKIE") if isinstance(header, dict) else header\n'), (H, "    return _sansio_http.parse_cookie(cookie=cookie, cls=cls)", "    parsed = _sansio_http.parse_cookie(cookie, cls)\n    return parsed")]},
+    # ---- the same set of fast-path values, spelled differently ----
+    {"name": "fast-path-match-Z", "edits": fast_path(r"{C}*\Z", "match")},
+    {"name": "fast-path-search-A-Z", "edits": fast_path(r"\A{C}*\Z", "search")},
+    {"name": "fast-path-search-caret-Z", "edits": fast_path(r"^(?:{C})*\Z", "search")},
+    {"name": "fast-path-fullmatch-dollar", "edits": fast_path("{C}*$", "fullmatch")},
+    {"name": "fast-path-match-Z-multiline", "edits": fast_path(r"{C}*\Z", "match", ", re.A | re.M")},
+    {"name": "fast-path-explicit-ascii-ranges", "edits": fast_path(r"[A-Za-z0-9_!#$%&'()*+\-./:<=>?@\[\]^`{|}~]*", "fullmatch", "")},
+    {"name": "fast-path-plus-or-empty", "edits": fast_path(r"(?:{C}+)?\Z", "match")},
+    {"name": "unsafe-search", "edits": unsafe_search("[^" + SAFE + "]")},
+    {"name": "unsafe-search-utf8-bytes", "edits": unsafe_search("[^" + SAFE + "]", "search", "value.encode()", "rb")},
+    {"name": "inline-pattern", "edits": inline_pattern('re.fullmatch(r"[' + SAFE + ']*", value, re.A)')},
 ]
